@@ -64,12 +64,30 @@ def build(profile, seed, tier, miri=False, plans=None):
     cmd = ["cargo", "build", "--offline", "-p", "recsim"]
     if profile == "release":
         cmd.append("--release")
-    with BuildLock():
-        t0 = time.time()
-        p = subprocess.run(cmd, cwd=SIM, env=env, stdout=subprocess.PIPE, stderr=subprocess.STDOUT, text=True)
-        dt = time.time() - t0
-    if p.returncode != 0:
-        raise HarnessError("recsim %s build failed (a generated module that does not compile is a pipeline failure, not a verdict of this check):\n%s" % (profile, p.stdout[-6000:]))
+    import re
+    excluded = []
+    dt = 0.0
+    for attempt in range(4):
+        if excluded:
+            env["RECSIM_EXCLUDE"] = ",".join(str(i) for i in sorted(set(excluded)))
+        with BuildLock():
+            t0 = time.time()
+            p = subprocess.run(cmd, cwd=SIM, env=env, stdout=subprocess.PIPE, stderr=subprocess.STDOUT, text=True)
+            dt += time.time() - t0
+        if p.returncode == 0:
+            break
+        # a generated module that does not compile is a pipeline failure of that definition (C13 is not
+        # decided here): leave the offending definitions out and build again
+        bad = set()
+        for block in re.split(r"\n(?=error)", p.stdout):
+            if block.startswith("error"):
+                for m in re.finditer(r"/out/def_(\d+)\.rs", block):
+                    bad.add(int(m.group(1)))
+        bad -= set(excluded)
+        if not bad or attempt == 3:
+            raise HarnessError("recsim %s build failed:\n%s" % (profile, p.stdout[-6000:]))
+        excluded += sorted(bad)
+        log("note: generated modules of %d definitions do not compile and are left out of the %s arm: def indices %s" % (len(bad), profile, sorted(bad)))
     src = os.path.join(env["CARGO_TARGET_DIR"], "release" if profile == "release" else "debug", "recsim")
     # keep a private copy: another check may rebuild the shared binary with other definitions
     return src, dt
